@@ -131,10 +131,10 @@ def conc_sets_real(sg, occs_list, vals_list, orders=None):
     return msgs
 
 
-def make_fn(sg, occs, reuse):
+def make_fn(sg, occs, reuse, supercell=False):
     def fn(e):
         occ = e.pick(occs)
-        dss = [S.make_dataset(e, sg, occ, tag="A")]
+        dss = [S.make_dataset(e, sg, occ, tag="A", orig_supercell=supercell)]
         orders = [None]
         if reuse:
             # one analyzer, a second system: same crystal family, another occupation order and atom order
@@ -224,10 +224,10 @@ def make_fn(sg, occs, reuse):
                 if closed and hit != set(idx):
                     conds.append(z3.BoolVal(False))
             e.post(tag + "every Hall-database operation maps a set onto itself and the orbit of one atom is the whole set", z3.And(*conds) if conds else True, mk("orbit-closure"))
-        if not reuse:
+        if not reuse and not supercell:
             conv0, _, letters0, _, key0 = res[0]
             e.validate_with(lambda env: S.validate_against_real(sg, dss[0], env, key0, conv0.get_scaled_positions(wrap=False), letters0))
-        e.reach("H07:reuse" if reuse else "H07:single")
+        e.reach("H07:reuse" if reuse else ("H07:supercell-input" if supercell else "H07:single"))
         e.sample({"space_group": sg, "occupations": [d["_occupation"] for d in dss], "sets": [[(s.wyckoff_letter, s.element, s.multiplicity) for s in r[1]] for r in res]})
     return fn
 
@@ -247,6 +247,17 @@ def run_group(arg):
     occ1 = S.occupations(sg, 1, S.ELEMENTS)[: (6 if tier == "quick" else 12)]
     occ1 = occ1 + [[(l, 14)] + o for o in occ1[:2] for l in S.letters_of(sg)[:1] if S.nvars(sg, l) or o[0][0] != l][:2]
     st2 = explore(make_fn(sg, occ1, True), f"H07r:sg{sg}", workers=1, timeout_ms=20000, budget_s=3000)
+    # the analysed system given as a 2x1x1 supercell of the standardized cell (per-atom spglib arrays doubled, equivalent_atoms a
+    # proper refinement of the crystallographic orbits)
+    st3 = explore(make_fn(sg, S.occupations(sg, 1, S.ELEMENTS)[: (8 if tier == "quick" else 27)], False, True), f"H07s:sg{sg}", workers=1, timeout_ms=20000, budget_s=3000)
+    for k in ("paths", "forks", "obligations", "discharged", "validated", "solver_s", "wall_s"):
+        st2[k] += st3[k]
+    for k in ("unsat", "sat", "unknown"):
+        st2["queries"][k] += st3["queries"][k]
+    for l, v in st3["reach"].items():
+        st2["reach"][l] = st2["reach"].get(l, 0) + v
+    for k in ("inconclusive", "harness_errors", "violations"):
+        st2[k].extend(st3[k])
     return sg, st, st2, len(occs)
 
 
@@ -266,9 +277,10 @@ def main(tier, seed, only=None):
             rep.merge_stats(st2, "H07-reuse")
             nocc += n
     if not only:
-        rep.require_reached("H07:single", "H07:reuse")
+        rep.require_reached("H07:single", "H07:reuse", "H07:supercell-input")
     rep.bounds = {"space_groups": len(groups), "occupations": nocc,
                   "orbits": "quick: <= 2 orbits for groups with <= 14 Wyckoff letters, 1 otherwise; thorough: <= 3 orbits for groups with <= 8 letters, 2 otherwise",
+                  "supercell input": "the analysed system as the 2x1x1 supercell of the standardized cell, single-orbit occupations (8 per group quick, all thorough)",
                   "reuse": "one analyzer, two systems (second with reversed atom order): ordered pairs of up to 8 occupations per group (quick), 14 (thorough)"}
     rep.stubs = ["SpglibContract dataset from the Hall-database orbits (letters, crystallographic_orbits, mapping_to_primitive, std_mapping_to_primitive consistent as documented)",
                  "StubAtoms / StubSystem", "letter oracle: row of the table containing the transformed representative (LIRA existential, rows validated by C14)"]
